@@ -840,32 +840,50 @@ def _stream_trailer(ctx):
 
 def gen_objects(rng, big_ok=True):
     """A list of (type_num, content).  Sizes straddle the 4-bit/7-bit header groups and the 64 KiB copy limit;
-    families of similar blobs make the deltifier produce chains; valid trees/commits/tags so Pack.check() applies."""
-    n = rng.choice([0, 1, 1, 2, 3, 5, 8, 13, 21, 40])
+    families of similar blobs make the deltifier produce chains; valid trees/commits/tags so Pack.check() applies.
+    The (debug-build) Rust differ costs about len * edit-distance, so all blobs above 300 bytes of one set are cut
+    from one pool / edited from one family base with a bounded amount of fresh bytes, and sets that contain 64 KiB
+    objects contain nothing else above 16 bytes."""
+    pool = (rng.randbytes(61) * 1200)[:70000]
     objs = []
+    if big_ok and rng.random() < 0.5:
+        for _ in range(rng.randint(1, 4)):
+            k = rng.random()
+            if k < 0.7:
+                sz = rng.choice([65535, 65536, 65537])
+                tail = rng.randbytes(rng.choice([0, 0, 1, 20]))
+                objs.append((3, pool[:sz - len(tail)] + tail if rng.random() < 0.5 else pool[:sz] + tail))
+            elif k < 0.85:
+                objs.append((3, rng.randbytes(rng.choice([0, 1, 15, 16]))))
+            elif objs:
+                objs.append(rng.choice(objs))
+        return objs
+    n = rng.choice([0, 1, 1, 2, 3, 5, 8, 13, 21, 40])
     sizes = [0, 1, 15, 16, 17, 127, 128, 129, 2047, 2048, 2049, 300, 1000]
-    fam_base = rng.randbytes(rng.choice([40, 200, 2050])) if rng.random() < 0.8 else b"line\n" * 300
+    fam_base = pool[: rng.choice([40, 200, 700])]
+    fresh = 300                                                # budget of fresh random bytes in big-ish blobs
     while len(objs) < n:
         k = rng.random()
         if k < 0.45:
-            # family member: edit of the family base (deltifiable)
             b = bytearray(fam_base)
             for _ in range(rng.randint(0, 3)):
                 p = rng.randrange(len(b) + 1)
-                b[p:p] = rng.randbytes(rng.choice([1, 5, 130]))
+                m = min(rng.choice([1, 5, 130]), fresh)
+                fresh -= m
+                if m:
+                    b[p:p] = rng.randbytes(m)
+                elif len(b) > 10:
+                    del b[p:p + rng.randint(1, 4)]
             if rng.random() < 0.5:
-                fam_base = bytes(b)      # chains: the next member derives from this one
+                fam_base = bytes(b)                            # chains: the next member derives from this one
             objs.append((3, bytes(b)))
-        elif k < 0.75:
+        elif k < 0.78:
             sz = rng.choice(sizes)
-            objs.append((3, rng.randbytes(sz) if rng.random() < 0.6 else bytes(rng.choice(b"ab\n") for _ in range(sz))))
-        elif k < 0.80 and big_ok:
-            sz = rng.choice([65535, 65536, 65537])
-            body = (rng.randbytes(64) * (sz // 64 + 1))[:sz]
-            objs.append((3, body))
-            if rng.random() < 0.7:
-                objs.append((3, body[: rng.choice([65535, 65536, sz])] + rng.randbytes(rng.choice([0, 1, 20]))))
-        elif k < 0.85:
+            if sz <= 300:
+                objs.append((3, rng.randbytes(sz) if rng.random() < 0.6 else bytes(rng.choice(b"ab\n") for _ in range(sz))))
+            else:
+                objs.append((3, pool[:sz - 1] + bytes([rng.randrange(256)])))
+        elif k < 0.84:
             objs.append((3, b""))
         elif k < 0.9 and objs:
             objs.append(rng.choice(objs))                      # duplicated content (same object again)
@@ -1063,16 +1081,24 @@ def pack_case(ctx, stream, objs, opts, workers=None, model=True, git=False):
                 if n_idx != len(want):
                     ok = _fail(ctx, stream, case, f"index has {n_idx} entries for {len(want)} distinct objects", cls)
                 for a in absent:
-                    found = a in p
+                    try:
+                        found = a in p
+                    except Exception as e:
+                        found = False
+                        _fail(ctx, stream + ".absent", dict(case, probe=hx(a)),
+                              f"`name in pack` raises {type(e).__name__} for {a.hex()}, which was never written",
+                              "phantom-name-after-table" if a == phantom else cls)
+                        ok = ok and a == phantom
                     try:
                         ty, data = p.get_raw(a)
                         abs_raw[a] = f"ok:{ty}:{hx(data)}"
                     except Exception as e:
                         abs_raw[a] = real_err(e)
                     if found:
-                        ok = _fail(ctx, stream + ".absent", dict(case, probe=hx(a)),
-                                   f"`name in pack` is True for {a.hex()}, which was never written",
-                                   "phantom-name-after-table" if a == phantom else cls)
+                        _fail(ctx, stream + ".absent", dict(case, probe=hx(a)),
+                              f"`name in pack` is True for {a.hex()}, which was never written",
+                              "phantom-name-after-table" if a == phantom else cls)
+                        ok = ok and a == phantom
                 # sequential iteration
                 seq = {}
                 cnt = 0
@@ -1362,7 +1388,8 @@ def _stream_packs(ctx, workers):
         pack_case(ctx, "pack", objs, opts, workers=workers, model=True, git=(i < ngit or ctx.thorough and i % 3 == 0))
     # fixed corner cases
     fixed = [([], "objects"), ([(3, b"")], "objects"), ([(3, b"a" * 16), (3, b"a" * 15)], "objects"),
-             ([(3, b"x" * 65536), (3, b"x" * 65535 + b"y")], "records"), ([(2, b"")], "objects")]
+             ([(3, b"x" * 65536), (3, b"x" * 65535 + b"y")], "records"), ([(3, b"x" * 65536), (3, b"x" * 65537)], "objects"),
+             ([(2, b"")], "objects")]
     for objs, path in fixed:
         for v in (1, 2, 3):
             opts = {"path": path, "deltify": True, "window": None, "level": -1, "version": v, "cache": None, "sub": 1, "chunked": False}
